@@ -216,7 +216,21 @@ func GenerateRandomExpr(level int, random *rand.Rand, opts ...GenExprOption) Gen
 		}
 	}
 
-	return helper(c.GenType, level)
+	res := helper(c.GenType, level)
+	if strings.HasPrefix(res.Expr, "(") {
+		return res
+	}
+
+	// a bare atom (level 0) is not an expression on its own,
+	// wrap it in an identity operation so that the result compiles
+	op, unit := "+", GenExprResult{Expr: "0", Res: int64(0)}
+	if c.GenType == GenBool {
+		op, unit = "and", boolExprTrue
+	}
+	return GenExprResult{
+		Expr: fmt.Sprintf(`(%s %s %s)`, op, unit.Expr, res.Expr),
+		Res:  execOp(op, unit.Res, res.Res),
+	}
 }
 
 func GenerateTestCase(expr string, want Value, valMap map[string]interface{}) string {
